@@ -145,3 +145,87 @@ pub open spec fn union_result<V: NumericId>(p: Seq<V>, a: nat, b: nat) -> (nat, 
     if ra <= rb { (ra, rb) } else { (rb, ra) }
 }
 
+
+// ---------------- "same class iff connected by the unions performed" (C17, C01) ----------------------
+/// the effect of one `union(a, b)` on the roots, exactly as in the postcondition of `UnionFind::union`
+pub open spec fn union_step<V: NumericId>(p0: Seq<V>, p1: Seq<V>, a: nat, b: nat) -> bool {
+    forall|j: nat| #[trigger] root(p1, j) == (if root(p0, j) == union_result(p0, a, b).1 { union_result(p0, a, b).0 } else { root(p0, j) })
+}
+
+/// connectivity generated by a history of unions: the reflexive-symmetric-transitive closure, built up
+/// one union at a time
+pub open spec fn connected(h: Seq<(nat, nat)>, x: nat, y: nat) -> bool
+    decreases h.len()
+{
+    if h.len() == 0 { x == y } else {
+        let g = h.drop_last();
+        let a = h.last().0;
+        let b = h.last().1;
+        connected(g, x, y) || (connected(g, x, a) && connected(g, b, y)) || (connected(g, x, b) && connected(g, a, y))
+    }
+}
+
+pub proof fn lemma_union_step_same<V: NumericId>(p0: Seq<V>, p1: Seq<V>, a: nat, b: nat)
+    requires wf(p0), union_step(p0, p1, a, b),
+    ensures
+        forall|x: nat, y: nat| #[trigger] same(p1, x, y) <==>
+            (same(p0, x, y) || (same(p0, x, a) && same(p0, b, y)) || (same(p0, x, b) && same(p0, a, y))),
+{
+    lemma_root_fixed(p0, a);
+    lemma_root_fixed(p0, b);
+    assert forall|x: nat, y: nat| #[trigger] same(p1, x, y) <==>
+            (same(p0, x, y) || (same(p0, x, a) && same(p0, b, y)) || (same(p0, x, b) && same(p0, a, y))) by {
+        assert(root(p1, x) == (if root(p0, x) == union_result(p0, a, b).1 { union_result(p0, a, b).0 } else { root(p0, x) }));
+        assert(root(p1, y) == (if root(p0, y) == union_result(p0, a, b).1 { union_result(p0, a, b).0 } else { root(p0, y) }));
+    }
+}
+
+/// After ANY history of unions starting from singletons, two ids are in the same class exactly when they are
+/// connected by the unions performed (`ps` are the successive forests; finds in between change no root).
+pub proof fn lemma_same_iff_connected<V: NumericId>(ps: Seq<Seq<V>>, h: Seq<(nat, nat)>)
+    requires
+        ps.len() == h.len() + 1,
+        forall|k: int| 0 <= k < ps.len() ==> wf(#[trigger] ps[k]),
+        forall|j: nat| root(ps[0], j) == j,
+        forall|k: int| 0 <= k < h.len() ==> union_step(#[trigger] ps[k], ps[k + 1], h[k].0, h[k].1),
+    ensures
+        forall|x: nat, y: nat| #![trigger same(ps.last(), x, y)] #![trigger connected(h, x, y)] same(ps.last(), x, y) <==> connected(h, x, y),
+    decreases h.len()
+{
+    if h.len() == 0 {
+        assert forall|x: nat, y: nat| same(ps.last(), x, y) <==> connected(h, x, y) by {
+            assert(root(ps[0], x) == x && root(ps[0], y) == y);
+        }
+    } else {
+        let n = h.len() as int;
+        let g = h.drop_last();
+        let qs = ps.drop_last();
+        assert forall|k: int| 0 <= k < g.len() implies union_step(#[trigger] qs[k], qs[k + 1], g[k].0, g[k].1) by {
+            assert(union_step(ps[k], ps[k + 1], h[k].0, h[k].1));
+        }
+        assert forall|k: int| 0 <= k < qs.len() implies wf(#[trigger] qs[k]) by { assert(wf(ps[k])); }
+        lemma_same_iff_connected(qs, g);
+        assert(qs.last() == ps[n - 1]);
+        assert(union_step(ps[n - 1], ps[n], h[n - 1].0, h[n - 1].1));
+        lemma_union_step_same(ps[n - 1], ps[n], h.last().0, h.last().1);
+        assert forall|x: nat, y: nat| same(ps.last(), x, y) <==> connected(h, x, y) by {
+            let a = h.last().0;
+            let b = h.last().1;
+            let q = ps[n - 1];
+            assert(same(q, x, y) <==> connected(g, x, y));
+            assert(same(q, x, a) <==> connected(g, x, a));
+            assert(same(q, b, y) <==> connected(g, b, y));
+            assert(same(q, x, b) <==> connected(g, x, b));
+            assert(same(q, a, y) <==> connected(g, a, y));
+            assert(same(ps[n], x, y) <==> (same(ps[n - 1], x, y) || (same(ps[n - 1], x, a) && same(ps[n - 1], b, y)) || (same(ps[n - 1], x, b) && same(ps[n - 1], a, y))));
+        }
+    }
+}
+
+/// The representative of a class is its minimum id: no member of the class is smaller than the root.
+pub proof fn lemma_root_is_minimum<V: NumericId>(p: Seq<V>, x: nat, y: nat)
+    requires wf(p), same(p, x, y),
+    ensures root(p, x) <= y,
+{
+    lemma_root_le(p, y);
+}
